@@ -289,3 +289,31 @@ func VerifValidateHeader(opts []WarcRecordOption, verTxt string, pairs [][2]stri
 	}
 	return rt, VerifPairs(wf), findings, errTag
 }
+
+// ---- blocks constructed directly (the lazy digest state machine, incl. uncached sources)
+
+type verifPlainReader struct{ r io.Reader }
+
+func (p verifPlainReader) Read(b []byte) (int, error) { return p.r.Read(b) }
+
+// VerifNewBlock builds a generic block (head == nil) or an http block over head+payload.
+// cached: the source is a diskbuffer (seekable); otherwise a plain one-shot reader.
+func VerifNewBlock(http bool, content []byte, cached bool, maxMem int64) (Block, error) {
+	o := newOptions(WithBufferMaxMemBytes(maxMem))
+	var src io.Reader
+	if cached {
+		buf := diskbuffer.New(o.bufferOptions...)
+		_, _ = buf.Write(content)
+		src = buf
+	} else {
+		src = verifPlainReader{strings.NewReader(string(content))}
+	}
+	bd, _ := newDigest("sha1", Base32)
+	if !http {
+		return newGenericBlock(o, src, bd), nil
+	}
+	pd, _ := newDigest("sha1", Base32)
+	wf := &WarcFields{}
+	v := &Validation{}
+	return newHttpBlock(o, wf, src, bd, pd, v)
+}
